@@ -1096,6 +1096,12 @@ class Frame:
                 return S(("func", b.target.qual, b.bound_cls.name if b.bound_cls else None))
             if b.kind == "class":
                 return S(("cls", b.target.name))
+            if b.kind == "ext" and "." in str(b.target):
+                # `from itertools import chain` / `from math import sqrt, pi`: the imported member, as if written module.member
+                mod_, _, mem_ = str(b.target).rpartition(".")
+                if mod_ == "math" and mem_ in ("pi", "e", "inf", "tau", "nan"):
+                    return NUM
+                return S(("extattr", str(b.target)))
             if b.kind in ("ext", "module"):
                 return EXT
             if b.kind == "var":
@@ -1599,6 +1605,14 @@ class Frame:
             return pos[0] if pos and not (isinstance(pos[0], tuple)) else unknown("deepcopy")
         if name.startswith("math."):
             return NUM
+        if name == "itertools.chain":
+            el = BOT
+            for p in pos:
+                if isinstance(p, tuple) and p and p[0] == "STAR":
+                    el |= self.iter_elems(p[1], e)
+                else:
+                    el |= self.iter_elems(p, e)
+            return seq("iter", el)
         return EXT
 
     def container_method(self, meth, ctag, pos, e, env) -> FrozenSet:
